@@ -98,7 +98,9 @@ Proof.
       destruct Hjm as [-> Hm0].
       destruct m as [|m']; [congruence|].
       apply (pts_read_bad_line n _ (firstn (S m') (nth (n - 1) ls []))).
-      * rewrite firstn_all2 by (rewrite pts_prefix_length; simpl; lia).
+      * assert (Hlp : (@length line (pts_prefix ls (n - 1) (S m')) <= n)%nat).
+        { rewrite (pts_prefix_length ls (n - 1) (S m')) by lia. simpl. lia. }
+        rewrite (firstn_all2 _ Hlp).
         unfold pts_prefix. apply in_or_app. right. left. reflexivity.
       * (* the first line of the prefix is the complete first line of the file: w fields *)
         assert (Hhd : length (hd [] (pts_prefix ls (n - 1) (S m'))) = w).
